@@ -214,7 +214,7 @@ class Outcome:
         k = known_match(self.pid, key)
         if k:
             if key not in [x[0] for x in self.known]:
-                self.known.append((key, what))
+                self.known.append((key, k.get("what", what)))
         else:
             self.violations.append((key, replay, what))
 
